@@ -133,9 +133,41 @@ fn trace_hash(trace: &[String]) -> u64 {
     h
 }
 
+/// Every execution happens on a freshly spawned OS thread with a freshly installed simulated
+/// environment, so that nothing a run leaves behind in thread-local storage (of the harness or of the
+/// code under test) can influence the next run: one run = one hermetic world.
+pub fn on_fresh_thread<R: Send>(f: impl FnOnce() -> R + Send) -> R {
+    std::thread::scope(|s| {
+        std::thread::Builder::new()
+            .stack_size(32 << 20)
+            .spawn_scoped(s, || {
+                env::install();
+                let r = f();
+                env::uninstall();
+                r
+            })
+            .expect("harness: spawn run thread")
+            .join()
+            .unwrap_or_else(|_| {
+                eprintln!("harness: run thread panicked");
+                std::process::exit(2)
+            })
+    })
+}
+
 pub fn exec_and_judge(sc: &Scenario, run: &Run) -> Judgement {
-    let obs = world::execute(run);
-    (sc.judge)(run, &obs)
+    on_fresh_thread(|| {
+        let obs = world::execute(run);
+        (sc.judge)(run, &obs)
+    })
+}
+
+pub fn exec_obs_and_judge(sc: &Scenario, run: &Run) -> (Vec<Obs>, Judgement) {
+    on_fresh_thread(|| {
+        let obs = world::execute(run);
+        let j = (sc.judge)(run, &obs);
+        (obs, j)
+    })
 }
 
 fn sample_of(run: &Run) -> Value {
@@ -540,6 +572,8 @@ fn shrink_claim(c: &ClaimSpec) -> Vec<ClaimSpec> {
             o
         }
         ClaimSpec::Native { key, val } => vec![ClaimSpec::Custom { key: key.clone(), value: val.to_json() }],
+        ClaimSpec::CustomRef { key, value } => shrink_value(value).into_iter().map(|v| ClaimSpec::CustomRef { key: key.clone(), value: v }).collect(),
+        ClaimSpec::Bare { key, value } => shrink_value(value).into_iter().map(|v| ClaimSpec::Bare { key: key.clone(), value: v }).collect(),
         _ => vec![],
     }
 }
@@ -814,10 +848,7 @@ pub fn replay(sc_lookup: fn(&str) -> Option<&'static Scenario>, path: &str, know
         return 2;
     }
     let known = load_known(known_path);
-    env::install();
-    let obs = world::execute(&run);
-    let j = (sc.judge)(&run, &obs);
-    env::uninstall();
+    let (obs, j) = exec_obs_and_judge(sc, &run);
     for (i, (e, o)) in run.events.iter().zip(obs.iter()).enumerate() {
         let es = serde_json::to_string(e).unwrap_or_default();
         let os = serde_json::to_string(o).unwrap_or_default();
